@@ -172,7 +172,13 @@ def inject(rng, prog):
                 m["stream"] = True; m["tag"] = None
         elif choice == "shadow":
             d = rng.choice([i for i in ifaces if i["bases"] and i["ops"]])
-            base = next(x for x in ifaces if x["scoped"] == d["bases"][0]["id"])
+            # any ancestor, direct or indirect (also through a diamond)
+            anc, todo = [], [b["id"] for b in d["bases"]]
+            while todo:
+                x = next(i for i in ifaces if i["scoped"] == todo.pop())
+                if x not in anc:
+                    anc.append(x); todo += [b["id"] for b in x["bases"]]
+            base = rng.choice([a for a in anc if a["ops"]])
             d["ops"][0]["name"] = rng.choice(base["ops"])["name"]
         elif choice == "alias_opt":
             d = rng.choice(aliases); d["type"]["opt"] = True
@@ -228,6 +234,21 @@ def small_scope_families():
                 e = {"kind": "enum", "name": "E", "scoped": "M::E", "module": "M", "compact": False, "unchecked": False, "underlying": p, "attrs": [],
                      "enumerators": [{"name": "A", "attrs": [], "fields": None, "value": v, "base": base}]}
                 progs.append({"files": [{"path": "x", "module": "M", "defs": [e]}]})
+    # inherited operations: chains of length 1..3 and a diamond, the redeclared operation coming from every ancestor
+    def iface(name, bases, ops):
+        return {"kind": "interface", "name": name, "scoped": "M::" + name, "module": "M", "attrs": [],
+                "bases": [{"k": "named", "id": "M::" + b, "kind": "interface", "text": b, "opt": False, "attrs": []} for b in bases],
+                "ops": [{"name": o, "idempotent": False, "attrs": [], "params": [], "returns": []} for o in ops]}
+    shapes = [[("A", [], ["a"]), ("B", ["A"], ["b"]), ("C", ["B"], ["c"]), ("D", ["C"], ["d"])],
+              [("A", [], ["a"]), ("B", ["A"], ["b"]), ("C", ["A"], ["c"]), ("D", ["B", "C"], ["d"])]]
+    for shape in shapes:
+        for redeclare_in in range(1, 4):
+            for take_from in range(0, redeclare_in):
+                for split in (False, True):
+                    ds = [iface(n, b, list(o)) for n, b, o in shape]
+                    ds[redeclare_in]["ops"].append({"name": shape[take_from][2][0], "idempotent": False, "attrs": [], "params": [], "returns": []})
+                    files = [{"path": "x", "module": "M", "defs": ds}] if not split else [{"path": "x", "module": "M", "defs": ds[:2]}, {"path": "y", "module": "M", "defs": ds[2:]}]
+                    progs.append({"files": files})
     return progs
 
 
